@@ -179,6 +179,24 @@ func choosePattern(body string, bound []string) string {
 		}
 	}
 	walk(root, false)
+	if len(bound) == 1 {
+		// one bound variable: every (distinct) candidate is offered as an alternative pattern, shortest
+		// first -- which of the terms the goal happens to contain depends on the caller
+		cs := cands[bound[0]]
+		if len(cs) == 0 {
+			return ""
+		}
+		sort.SliceStable(cs, func(i, j int) bool { return len(cs[i]) < len(cs[j]) })
+		var alts []string
+		dup := map[string]bool{}
+		for _, c := range cs {
+			if !dup[c] && len(alts) < 4 {
+				dup[c] = true
+				alts = append(alts, c)
+			}
+		}
+		return strings.Join(alts, ") :pattern (")
+	}
 	var pats []string
 	seen := map[string]bool{}
 	for _, b := range bound {
